@@ -69,7 +69,7 @@ func (r *Replayer) prepare() error {
 	haveNative := false
 	for virt, real := range r.L.ReplayFiles {
 		replace[virt] = real
-		if strings.HasSuffix(virt, "_native.go") {
+		if filepath.Base(virt) == "zz_verif_intrinsics_native.go" {
 			haveNative = true
 		}
 	}
